@@ -5,11 +5,13 @@ import (
 	"flag"
 	"fmt"
 	"os"
+	"path/filepath"
 	"sort"
 	"strings"
 	"time"
 
 	"verifsim/choice"
+	"verifsim/gen"
 )
 
 // BatchOut is what one worker process writes for the driver.
@@ -61,6 +63,26 @@ func WorkerMain(t Target) {
 		os.Exit(runBatch(t, *prop, *seed, *from, *to, *out, *maxS, *shrinkBudget, *evlog))
 	case "replay":
 		os.Exit(replayFile(t, *file))
+	case "genbatch":
+		o := GenBatch(t, *prop, *seed, *to, *file)
+		writeJSON(*out, o)
+		os.Exit(0)
+	case "genone":
+		b, err := os.ReadFile(*file)
+		if err != nil {
+			fmt.Fprintln(os.Stderr, err)
+			os.Exit(2)
+		}
+		var v struct {
+			Cfg *gen.Cfg `json:"cfg"`
+		}
+		if err := json.Unmarshal(b, &v); err != nil || v.Cfg == nil {
+			fmt.Fprintln(os.Stderr, "no cfg in", *file, err)
+			os.Exit(2)
+		}
+		o := GenOne(t, v.Cfg, *out)
+		writeJSON(filepath.Join(*out, "genout.json"), o)
+		os.Exit(0)
 	case "selfout":
 		data, code := SelfOutput(t)
 		if code != 0 || data == "" {
